@@ -10,7 +10,7 @@ use crate::Ctx;
 use refimpl::{Mode, MODES};
 use serde_json::json;
 
-const RULE: &str = "fault enumeration: entry points {try_keygen_with_rng (module fn), KG::try_keygen_with_rng, try_sign_with_rng, try_hash_sign_with_rng x3 PH, dudect_keygen_sign_with_rng (two requests)} x 3 sets x failing request index {0,1,2} x fault kind {error before write, error after 1/16/31 real bytes with a poisoned tail, error after a full write} x reported error code {rand_core custom, internal, OS errnos 1, 4 (EINTR), 5, 11 (EAGAIN), 35, 38, 2^31-1, 2^32-1}: when the fault fires the call must return Err without unwinding; when it does not fire the call must return Ok and a strict RNG (whose infallible methods panic) must have logged only try_fill_bytes(32). Influence: for each of the 256 bit positions of each draw, flipping it must change the public-key bytes, the private-key bytes and the signature (each mode). OS RNG: repeated try_keygen/try_sign/try_hash_sign calls on identical inputs give pairwise distinct outputs that verify. Non-trivial = distinct (entry point, set, fault index, fault kind) cells in which the fault actually fired, plus distinct influence probes.";
+const RULE: &str = "fault enumeration: entry points {try_keygen_with_rng (module fn), KG::try_keygen_with_rng, try_sign_with_rng, try_hash_sign_with_rng x3 PH, dudect_keygen_sign_with_rng (two requests)} x 3 sets x failing request index {0,1,2} x fault kind {error before write, error after 1/16/31 real bytes with a poisoned tail, error after a full write} x reported error code {rand_core custom, internal, OS errnos 1, 4 (EINTR), 5, 11 (EAGAIN), 35, 38, 2^31-1, 2^32-1}: when the fault fires the call must return Err without unwinding; when it does not fire the call must return Ok and a strict RNG (whose infallible methods panic) must have logged only try_fill_bytes(32). Influence: for each of the 256 bit positions of each draw, flipping it must change the public-key bytes, the private-key bytes and the signature (each mode). Exhaustion: ML-DSA-44 signing calls with accepted extreme-t0 keys (48 / 384) make exactly one RNG request whether they succeed or run out of loop iterations, and the exhausted ones return Err after one request also when a second request would fail. OS RNG: repeated try_keygen/try_sign/try_hash_sign calls on identical inputs give pairwise distinct outputs that verify. Non-trivial = distinct (entry point, set, fault index, fault kind) cells in which the fault actually fired, plus distinct influence probes.";
 
 pub fn run(ctx: &Ctx) -> StageOut {
     let mut acc = Acc::new();
@@ -234,6 +234,77 @@ fn run_set<S: PS>(ctx: &Ctx) -> Acc {
         }
     }
     acc.count("os_rng_outputs_pairwise_distinct", seen.len() as u64);
+
+    // ---- signing that runs out of rejection-loop iterations (ML-DSA-44, accepted keys with extreme t0) --
+    // Whatever the outcome, one signing call makes exactly one RNG request; when the loop is exhausted the
+    // call returns Err without asking the generator again, so a generator that would fail on a second
+    // request is never reached. (A retry with fresh randomness on exhaustion would show a second request,
+    // and with a failing second request possibly a signature made from a half-written buffer.)
+    if S::SET == 44 {
+        let n = ctx.budget(48, 384) as usize;
+        // batches are repeated (new keys) until at least one call ran out of iterations (about 5 % do)
+        for batch in 0..10u64 {
+        let accs = par_map(n, |i| {
+            let mut a = Acc::new();
+            let mut g = Prng::derive(ctx.seed, &format!("c12-exhaust-{batch}"), i as u64);
+            let sk_b = crate::gen::hostile_sk(&mut g, p, crate::gen::SPat::Random, crate::gen::T0Pat::RandomExtremes);
+            let Ok(Ok(hsk)) = guarded(|| S::sk_from(&sk_b)) else { return a };
+            let m = g.bytes(12);
+            // every other call in pure mode, the others rotate over the pre-hash functions
+            let mode = if i % 2 == 0 { Mode::Pure } else { MODES[1 + (i / 2) % 3] };
+            let script = g.bytes(96);
+            a.eval();
+            let replay = json!({"kind":"c12-exhaust","set":S::SET,"sk":hex(&sk_b),"message":hex(&m),"mode":mode.name(),"script":hex(&script)});
+            let r1 = guarded(|| {
+                let mut rng = RecordingRng::strict(&script);
+                let out = S::sign(&hsk, &mut rng, &m, &[], mode);
+                (out.is_ok(), rng.log.clone(), rng.pos)
+            });
+            let Ok((ok, log, pos)) = r1 else {
+                a.violation(&format!("C12|panic|{}|sign-rejection-heavy", p.name), "panic while signing with a rejection-heavy key (see C13)".into(), replay);
+                return a;
+            };
+            if log.len() != 1 || log[0] != crate::rngs::Call::TryFill(32) || pos != 32 {
+                a.violation(&format!("C12|rng-log|{}|sign-rejection-heavy|ok={ok}", p.name), format!("a signing call (result ok={ok}) made RNG requests {log:?}; expected exactly one try_fill_bytes(32)"), replay);
+                return a;
+            }
+            a.count(if ok { "rejection_heavy_sign_ok_one_request" } else { "exhausted_sign_err_one_request" }, 1);
+            if !ok {
+                a.count(if mode == Mode::Pure { "exhausted_pure" } else { "exhausted_prehash" }, 1);
+            }
+            a.nontrivial(digest64(&[b"exh", &sk_b, &m]));
+            if !ok {
+                // the same call with a generator whose SECOND request fails after a partial write
+                for kind in [FaultKind::AfterPartial(16), FaultKind::Before] {
+                    a.eval();
+                    let r2 = guarded(|| {
+                        let mut rng = FaultRng::new(&script, 1, kind).with_code(4);
+                        let out = S::sign(&hsk, &mut rng, &m, &[], mode);
+                        (out.is_ok(), rng.fired, rng.requests)
+                    });
+                    match r2 {
+                        Ok((false, false, 1)) => {
+                            a.count("exhausted_sign_second_request_never_made", 1);
+                            a.nontrivial(digest64(&[b"exh2", &sk_b, &m, format!("{kind:?}").as_bytes()]));
+                        }
+                        Ok((is_ok, fired, requests)) => a.violation(&format!("C12|fault-ignored|{}|sign-exhausted|{kind:?}", p.name), format!("loop-exhausting signing call: ok={is_ok}, requests={requests}, failing second request reached={fired}; expected Err after exactly one request"), replay.clone()),
+                        Err(pi) => a.violation(&format!("C12|panic|{}|sign-exhausted", p.name), format!("panic: {}", pi.message), replay.clone()),
+                    }
+                }
+            }
+            a
+        });
+        for a in accs {
+            acc.merge(a);
+        }
+        if (acc.counters.contains_key("exhausted_pure") && acc.counters.contains_key("exhausted_prehash")) || !acc.violations.is_empty() {
+            break;
+        }
+        }
+        if !(acc.counters.contains_key("exhausted_pure") && acc.counters.contains_key("exhausted_prehash")) && acc.violations.is_empty() {
+            acc.inconclusive("the rejection-heavy batches did not produce a loop-exhausting call in both pure and pre-hash mode (expected a few percent of calls)".into());
+        }
+    }
     acc
 }
 
